@@ -288,7 +288,7 @@ def conflict_monitor(out, ids, deps, phase, counters, rec, wit):
 
 
 def gen_script(rng):
-    g = prog.Gen(rng, profile="py", nphases=1, max_ops=rng.choice([4, 6, 8, 10]))
+    g = prog.Gen(rng, profile="py", nphases=1, max_ops=rng.choice([4, 6, 8, 10]), containers=True)
     sc = g.script()
     return sc
 
